@@ -26,6 +26,7 @@
 
 #include <stdlib.h>
 #include <stdint.h>
+#include <limits.h>
 #include <stdbool.h>
 #include <string.h>
 #include <unistd.h>
@@ -531,9 +532,13 @@ static bool read_lead(zckCtx *zck) {
         hash_reset(&(zck->hash_type));
         return false;
     }
-    if(header_length > SIZE_MAX) {
+    /* The whole header (lead, including its digest, and the rest) must be a
+     * length the getters can report */
+    if(header_length > SSIZE_MAX ||
+       header_length > SSIZE_MAX - length - zck->hash_type.digest_size) {
         free(header);
-        set_error(zck, "Header length of %li invalid", header_length);
+        set_error(zck, "Header length of %llu invalid",
+                  (long long unsigned) header_length);
         hash_reset(&(zck->hash_type));
         return false;
     }
